@@ -71,8 +71,8 @@ func bitfieldAtomIn(root *ssa.Function, v ssa.Value, param ssa.Value) string {
 }
 
 func checkC20(c *Ctx, r *Report) {
-	r.Explain = "Only the clauses of this property whose truth is in the shape of the code are decided: the BCD-plus character table; the encoding→decoder table; exact true-sets of the system-relative/device-relative predicates; the rolling-average unit multiplier table and, arm by arm, the period encoder (unit tag ↔ divisor ↔ duration interval, one truncation, count ≤ 63 by interval or clamp); the unsigned and two's-complement analog parsers as zero/sign extension; the Latin-1 decoder as a copy of the first c bytes; bcd.Decode as the normal form 10·b[7:4] + b[3:0]; the IPMI checksum as the negated 8-bit sum of every byte. Three conversions are decided as bit functions by abstract interpretation over symbolic bits (engine E2 with a ripple-carry adder on the bit domain), for all inputs at once and without running anything: complement.Twos(v, n) is the sign extension of v's low n bits for every n = 1..16; the packed 6-bit ASCII and BCD-plus decoders store into result[i], for every residue of the character index, exactly the specified bits of bytes 3⌊i/4⌋+k resp. ⌊i/2⌋ (index arithmetic by entailment in E1's constraint store), for i = 0..c−1, and consume ⌈3c/4⌉ resp. ⌈c/2⌉ bytes; the Latin-1 decoder returns the window b[0:c] itself. What remains (one's complement as arithmetic, the duration accessor's floating point) is listed as not decided."
-	r.NotDecided = []string{"complement.Ones as arithmetic (value-level; b+1 under a sign test is not a bit shuffle)", "rollingAvgPeriodDuration as a value function and the byte↔duration round trip as a value statement (the encoder is decided arm by arm as exact rational arithmetic; floating-point rounding of time.Duration accessors is not modelled)", "the contents of the Go string built from the decoded runes (string([]rune) is the language's conversion)"}
+	r.Explain = "Only the clauses of this property whose truth is in the shape of the code are decided: the BCD-plus character table; the encoding→decoder table; exact true-sets of the system-relative/device-relative predicates; the rolling-average unit multiplier table and, arm by arm, the period encoder (unit tag ↔ divisor ↔ duration interval, one truncation, count ≤ 63 by interval or clamp); the unsigned and two's-complement analog parsers as zero/sign extension; the Latin-1 decoder as a copy of the first c bytes; bcd.Decode as the normal form 10·b[7:4] + b[3:0]; the IPMI checksum as the negated 8-bit sum of every byte. Three conversions are decided as bit functions by abstract interpretation over symbolic bits (engine E2 with a ripple-carry adder on the bit domain), for all inputs at once and without running anything: complement.Twos(v, n) is the sign extension of v's low n bits for every n = 1..16; the packed 6-bit ASCII and BCD-plus decoders store into result[i], for every residue of the character index, exactly the specified bits of bytes 3⌊i/4⌋+k resp. ⌊i/2⌋ (index arithmetic by entailment in E1's constraint store), for i = 0..c−1, and consume ⌈3c/4⌉ resp. ⌈c/2⌉ bytes; the Latin-1 decoder returns the window b[0:c] itself. complement.Ones is decided as arithmetic, with narrow-type wrap-around kept exact in engine E1's linear forms: on every path the result is entailed to be b (b ≤ 127) or b − 255 (b ≥ 128). What remains (the duration accessor's floating point) is listed as not decided."
+	r.NotDecided = []string{"rollingAvgPeriodDuration as a value function and the byte↔duration round trip as a value statement (the encoder is decided arm by arm as exact rational arithmetic; floating-point rounding of time.Duration accessors is not modelled)", "the contents of the Go string built from the decoded runes (string([]rune) is the language's conversion)"}
 	r.Trusted = []string{"go/types, go/ssa (x/tools v0.29.0)", "IPMI v2.0 §43.15 (type/length byte, BCD plus), §43.1 entity instance ranges, DCMI §6.6.1 time units"}
 	ir := newInitReader(c)
 
@@ -344,6 +344,7 @@ func checkC20(c *Ctx, r *Report) {
 	}
 
 	checkTwosPrimitive(c, r)
+	checkOnesPrimitive(c, r)
 	checkPackedDecoders(c, r)
 
 	// the primitives at their points of use: the IPMI checksum is computed over the specified
